@@ -121,7 +121,8 @@ func (l *Lexer) NextToken() token.Token {
 		return tok
 	}
 
-	if l.char == '}' && l.peekChar() == '}' && l.countCurlyBraces == 0 {
+	// "}}" closes embedded code; inside a text run it is plain text
+	if !l.isHTML && l.char == '}' && l.peekChar() == '}' && l.countCurlyBraces == 0 {
 		return l.bracesToken(token.RBRACES, "}}")
 	}
 
